@@ -13,7 +13,9 @@ EVIDENCE = dict(
          "literally identical are shipped once with the list of controllers that produced them) and Trace_RVCtl "
          "checks them against ToRaw/FromRaw and the pattern envelope of each controller's YAML range. The same tables are "
          "observed through a MetaModule's user-defined controller mapped onto every controller with a negative minimum or a "
-         "unit-dependent range (and a quarter of the others), freshly built and after a file round trip. "
+         "unit-dependent range (and a quarter of the others), freshly built and after a file round trip, and in files: the "
+         "number found in the CVAL chunk of a written project / synth and the value loaded back, for every no-offset and "
+         "negative-minimum controller (an eighth of the others). "
          "evaluations = (controller, unit, value) triples executed; non-trivial = value differs from the minimum.",
     explanation="finite domain enumerated completely")
 
